@@ -85,6 +85,29 @@ def r03_2(ctx):
             else:
                 obs.add(lab(v))
         ctx.check(f"init_a_cast[{name}]", obs == {exp}, exp, " | ".join(sorted(obs)), fn_where(idx, fi))
+    # a truth value converted for ANY destination is 0 / 1 (C11 6.5.8p6, 6.3.1.2) - also when the destination is a predicate register
+    for dname, dcls, isa, dw in (("predicate register Pd", "Register", "Pd", 8), ("explicit predicate P0", "Register", "P0", 8), ("register Rd", "Register", "Rd", 32), ("local variable", "LocalVar", "v", 16)):
+        r = Runner(idx, keep_real=("cast_operands", "init_a_cast"))
+
+        def kw(dname=dname, dcls=dcls, isa=isa, dw=dw):
+            a = r.pure("a", vt=vt_case("ta", True, dw), cls=dcls)
+            r.stubs[("a", "get_isa_name")] = isa
+            r.stubs[("a", "get_name")] = isa
+            return {"a": a, "b": r.pure("b", vt=vt_case("tb", False, 1, ("PURE", "BOOL"))), "immutable_a": True}
+        fi, outs = r.run("cast_operands", lambda: [], args_list=True, kwargs=kw)
+        obs = set()
+        for o in outs:
+            if o.kind == "raise":
+                obs.add("RAISE")
+                continue
+            v = o.value[1] if isinstance(o.value, (tuple, list)) and len(o.value) == 2 else o.value
+            if isinstance(v, AObj) and v.cls == "Ternary":
+                tv, ev = ctor(v, "then_p"), ctor(v, "else_p")
+                val = lambda n: to_text(ctor(n, "val")) if isinstance(n, AObj) and n.cls == "Number" else lab(n)
+                obs.add(f"ITE({lab(ctor(v, 'cond'))}, {val(tv)}, {val(ev)})")
+            else:
+                obs.add(lab(v))
+        ctx.check(f"truth value assigned to a {dname}", obs == {"ITE(b, 1, 0)"}, "ITE(b, 1, 0)", " | ".join(sorted(obs)), fn_where(idx, fi))
     # floats are never cast
     r = Runner(idx, keep_real=("init_a_cast",))
     fi, outs = r.run("init_a_cast", lambda: [vt_case("T", True, 32, ("FLOAT", "IEEE")), r.pure("x", vt=vt_case("tx", True, 32))], args_list=True)
@@ -511,6 +534,44 @@ def init_a_cast_kind_independence(ctx):
               "a new Cast node around the operand; operand.value_type untouched", "; ".join(differing[:3]) or str({str(k): sorted(map(str, v)) for k, v in (base or {}).items()})[:160], fn_where(idx, fi))
 
 
+def declared_type_callbacks(ctx):
+    """`unsigned int` is unsigned int, in a declaration and in a cast: the two callbacks that combine a specifier with a type"""
+    idx = get_index(ctx.env)
+    for cb in ("specifier_qualifier_list", "declaration_specifiers"):
+        r = Runner(idx, keep_real=(cb,))
+        fi, outs = r.run(cb, lambda: [vt_case("unsigned", False, 32), vt_case("int", True, 32)])
+        got = sorted({(o.value.fields.get("_signed"), o.value.fields.get("_bit_width")) if o.kind != "raise" and isinstance(o.value, AObj) else "RAISE" for o in outs}, key=str)
+        ctx.check(f"{cb}[unsigned, int]", got == [(False, 32)], "(False, 32)", str(got), fn_where(idx, fi))
+
+
+def postfix_node_typing(ctx):
+    """the value of x++ / x-- is the old value of x, of x's own type (C11 6.5.2.4): an 8 / 16 bit variable yields an 8 / 16 bit value that
+    is converted by its consumer like any other operand of that type (an unsigned one zero-extends)"""
+    idx = get_index(ctx.env)
+    fi = idx.resolve_method("PostfixIncDec", "__init__")
+    ctx.need(fi is not None, "PostfixIncDec.__init__ not found")
+    ht = {m: EnumV("HybridType", m, v) for m, v in idx.enum_table("HybridType").items()}
+    pt = idx.enum_table("PureType")
+    fe = idx.func("PostfixIncDec.il_exec")
+    for signed in (True, False):
+        for w in (8, 16, 32, 64):
+            for hname in ("INC", "DEC"):
+                box = {}
+
+                def once(i, signed=signed, w=w, hname=hname):
+                    vt = vt_case("tv", signed, w)
+                    op = mk_pure("x", vt, cls="LocalVar")
+                    op.fields["type"] = EnumV("PureType", "LOCAL", pt["LOCAL"])
+                    node = AObj("PostfixIncDec", {}, label="node")
+                    i.call_function(fi, ["n", op, vt, ht[hname]], self_obj=node)
+                    box["node"] = node
+                    return [node.fields.get("value_type"), i.call_function(fe, [], self_obj=node)]
+                outs = Interp(idx).explore(once)
+                got = sorted({((o.value[0].fields.get("_signed"), o.value[0].fields.get("_bit_width")), to_text(o.value[1])) if o.kind == "return" and isinstance(o.value[0], AObj) else ("RAISE", "") for o in outs}, key=str)
+                exp = [((signed, w), f"{hname}(<x.il_read()>, {w})")]
+                ctx.check(f"x{'++' if hname == 'INC' else '--'} on a {'s' if signed else 'u'}{w} variable: type of the value and width of the operation", got == exp, str(exp), str(got), fn_where(idx, fi), nontrivial=(w < 32))
+
+
 @rule("R03.10", "C03", "the types conversions start from and end in are the declared ones: C type names denote sign and width by their spelling; nodes that yield a truth value are typed as one", min_instances=20)
 def r03_10(ctx):
     from .c08 import c_type_table
@@ -521,6 +582,8 @@ def r03_10(ctx):
     from .c07 import r07_5
 
     init_a_cast_kind_independence(ctx)
+    declared_type_callbacks(ctx)
+    postfix_node_typing(ctx)
     r07_5(ctx)  # immediates: sign by the letter class (#r / #s signed in both cases of the letter, the others unsigned)
     # a memory load yields a value of the ACCESS type (mem_load_s16 is a signed 16 bit value): widening it extends by that sign
     idx = get_index(ctx.env)
